@@ -89,11 +89,21 @@ SemCompatKey(defA, A, defB, B, allow, U) ==
     ELSE IF allow THEN SatK(B, U)                     \* undefined on the left and listed in AllowUndefined: unconstrained
     ELSE AbsentAll(B)                                 \* undefined custom key: the label is absent
 
-\* witness class of a compatibility disagreement (for known-finding signatures)
-CompatClass(defA, A, defB, B, U) ==
-    IF (defA /\ Unsat(A, U)) \/ (defB /\ Unsat(B, U)) THEN "unsat-operand"
-    ELSE IF (defA /\ HasBound(A) /\ HasNotIn(A)) \/ (defB /\ HasBound(B) /\ HasNotIn(B)) THEN "bounded-notin"
+\* witness class of a compatibility disagreement (for known-finding signatures).  A chain "requires presence with
+\* exclusions" when it has a non-empty NotIn atom, some other atom that a node without the label does not satisfy,
+\* and no In atom (so the admitted set stays co-finite): Exists /\ NotIn, Gt /\ NotIn, ...
+HasIn(as)         == \E j \in DOMAIN as : as[j].op = "In"
+PresenceNotIn(as) == HasNotIn(as) /\ ~AbsentAll(as) /\ ~HasIn(as)
+OperandClass(def, X, U) ==
+    IF ~def THEN "other"
+    ELSE IF Unsat(X, U) THEN "unsat-operand"
+    ELSE IF PresenceNotIn(X) /\ HasBound(X) THEN "bounded-notin"
+    ELSE IF PresenceNotIn(X) THEN "exists-notin"
     ELSE "other"
+ClassRank(c) == CASE c = "unsat-operand" -> 3 [] c = "bounded-notin" -> 2 [] c = "exists-notin" -> 1 [] OTHER -> 0
+CompatClass(defA, A, defB, B, U) ==
+    LET ca == OperandClass(defA, A, U)  cb == OperandClass(defB, B, U)
+    IN IF ClassRank(ca) >= ClassRank(cb) THEN ca ELSE cb
 
 \* ---------------------------------------------------------------- witness completeness of a universe
 Thresholds(as) == {(IF as[j].op = "Gt" THEN as[j].b + 1 ELSE IF as[j].op = "Lt" THEN as[j].b - 1 ELSE as[j].b)
